@@ -271,6 +271,12 @@ func (R *Repository) updateCRL(identifier string) error {
 	if entry != nil {
 		R.logger.Debug("updating crl from " + entry.CRLLoader.GetDescription())
 		if R.isEntryLoaded(entry) == false {
+			entry.entryLock.Lock()
+			defer entry.entryLock.Unlock()
+			//check again after getting write lock if entry is still not loaded
+			if entry.Loaded {
+				return nil
+			}
 			return R.loadCRL(entry, entry.Chains)
 		} else {
 			return R.updateCrlEntry(entry, nil)
